@@ -96,3 +96,19 @@ def _tup(x):
     if isinstance(x, list):
         return tuple(_tup(y) for y in x)
     return x
+
+
+def load_program(P):
+    """Restore a program dict that went through JSON (tuples became lists, Fractions became strings)."""
+    P = dict(P)
+    P["stmts"] = [tuple(_tup(s)) for s in P["stmts"]]
+    P["stmts"] = [tuple(list(x) if (i in (2, 3) and isinstance(x, tuple) and st[0] in ("rule", "prule", "ad") and _is_body(x)) else x
+                        for i, x in enumerate(st)) for st in P["stmts"]]
+    P["queries"] = [tuple(_tup(q)) for q in P["queries"]]
+    P["evidence"] = [(tuple(_tup(a)), v) for a, v in P["evidence"]]
+    P["preds"] = {k: tuple(v) for k, v in P["preds"].items()}
+    return P
+
+
+def _is_body(x):
+    return all(isinstance(l, tuple) and len(l) == 2 and l[0] in ("pos", "neg", "or") for l in x)
